@@ -1,3 +1,4 @@
+import DcmVerif.Props.Source_dicts
 import DcmVerif.Props.Source_subset
 import DcmVerif.Props.Source_insert
 import DcmVerif.Props.Source_values
